@@ -294,6 +294,37 @@ func runInheritance(c *Ctx) {
 	for _, b := range region {
 		inRegion[b] = true
 	}
+	// helpers that run only inside the guarded region belong to it (an inheritance pass extracted into a function)
+	for changed := true; changed; {
+		changed = false
+		for _, b := range append([]*ssa.BasicBlock{}, region...) {
+			for _, in := range b.Instrs {
+				call, ok := in.(*ssa.Call)
+				if !ok || call.Call.IsInvoke() {
+					continue
+				}
+				cal := call.Call.StaticCallee()
+				if cal == nil || !p.isModuleFn(cal) || len(cal.Blocks) == 0 || fnPkgPath(cal) != fnPkgPath(fn) || inRegion[cal.Blocks[0]] {
+					continue
+				}
+				only := true
+				for _, e := range p.Callers(cal) {
+					site, isInstr := e.Site.(ssa.Instruction)
+					if !isInstr || !inRegion[site.Block()] {
+						only = false
+					}
+				}
+				if !only {
+					continue
+				}
+				for _, cb := range cal.Blocks {
+					inRegion[cb] = true
+					region = append(region, cb)
+				}
+				changed = true
+			}
+		}
+	}
 	// any use of the option outside of being the guard?
 	for _, r := range *opt.Referrers() {
 		switch r.(type) {
@@ -345,6 +376,9 @@ func runInheritance(c *Ctx) {
 			case *ssa.MapUpdate:
 				c.Violated("INH", fname, "map update in the inheritance pass", p.ipos(x), "enabling inheritance changes a map")
 			case *ssa.Call:
+				if cal := x.Call.StaticCallee(); cal != nil && len(cal.Blocks) > 0 && inRegion[cal.Blocks[0]] {
+					continue // a helper of the pass itself: its body is checked as part of the region
+				}
 				if !isBuiltin(x, "len") && !isBuiltin(x, "cap") {
 					c.Violated("INH", fname, "call in the inheritance pass", p.ipos(x), "enabling inheritance runs "+trimMod(calleeName(x))+": effects beyond Stop.WheelchairBoarding cannot be excluded")
 				}
